@@ -1096,7 +1096,7 @@ def layer_b(ctx, stats):
             if nobs >= 2:
                 distinct.add(body)
             if r["fw"] != r["py"]["obs"]:
-                ctx.fail("firmware observations (serial lines, flash pattern levels) differ from CPython's on a program inside the guard",
+                ctx.fail("firmware observations (serial lines: folded lengths and run-time values of variables; flash pattern levels; glyph rows) differ from CPython's on a program inside the guard",
                          {"script": s, "digital_read(4)": drs[idx], "analog_read(14)": ars[idx], "main_loop_passes": loops[idx]},
                          r["py"]["obs"], r["fw"], key="stale-fold")
         elif fresh and r["status"] == "nocompile":
